@@ -233,12 +233,12 @@ def r7_synchronous(ck, cx):
 
 def run(ck, tier):
     cx = Ctx()
-    r1_r2(ck, cx)
-    r3_fc_pairing(ck, cx)
-    r4_who_may_send(ck, cx)
-    r5_per_connection_framer(ck, cx)
-    r6_signature(ck, cx)
-    r7_synchronous(ck, cx)
+    ck.guard(r1_r2, ck, cx)
+    ck.guard(r3_fc_pairing, ck, cx)
+    ck.guard(r4_who_may_send, ck, cx)
+    ck.guard(r5_per_connection_framer, ck, cx)
+    ck.guard(r6_signature, ck, cx)
+    ck.guard(r7_synchronous, ck, cx)
     ck.assume('request.execute may raise any Exception; context lookup may raise NoSuchSlaveException; other statements of execute() are treated as non-raising')
     ck.assume('byte-exact output streams over generated request histories are not decided')
     return cx.idx
